@@ -314,6 +314,9 @@ func (p *Parser) parseExpression(precedence ast.Priority) ast.Node {
 		return nil
 	}
 	leftExp := prefix()
+	if _, isComment := leftExp.(*ast.Comment); isComment {
+		return leftExp // a comment is a statement of its own, never the left operand of what follows it.
+	}
 	if p.peekTokenIs(token.LAMBDA) && precedence == ast.LAMBDA { // allow lambda chaining without parentheses in input.
 		p.nextToken()
 		return p.parseLambdaMulti(leftExp)
